@@ -19,6 +19,8 @@ the model (`truncate_validA`) and for every mask of the real code that the drive
 Interpretive decision (DESIGN §7): `tol`/`tol_block` bind on every value `≤ tol·max`; with
 `tol = 0` exact zeros (and negative eigenvalues) are discarded.  `nonbinding_keeps_all` therefore
 carries the explicit hypothesis that all values are strictly above both thresholds.
+
+The dense error identity (`truncated_error`, Mathlib) is in `YProofs/Props/C13Error.lean`.
 -/
 namespace YModel.Trunc
 
